@@ -34,9 +34,7 @@ func fnv64(d db.DB) (int, uint64) {
 	defer it.Release()
 	n := 0
 	for it.Next() {
-		if it.Value() == nil {
-			continue
-		}
+		// every entry the iterator delivers counts (deleted entries are skipped by the store's own iterator, 522bff7)
 		k, v := it.Key(), it.Value()
 		if !userKey(k) {
 			continue
